@@ -24,6 +24,67 @@ def build_asan(sc):
     return exe, ""
 
 
+def build_asan_small(sc):
+    """heap.c of the working tree with its initial allocation of 64 entries replaced by 3 (the InitSize of Heap.tla), so that
+    the reallocation boundaries 3/6/12 of the model's behaviours are the boundaries of the C code under ASan."""
+    import re
+    src = os.path.join(sc.repo, "jellyfysh/scheduler/heap_scheduler")
+    text = open(os.path.join(src, "heap.c")).read()
+    small, n = re.subn(r"(heap->size\s*\?\s*heap->size\s*\*\s*2\s*:\s*)64\b", r"\g<1>3", text)
+    if n != 1:
+        return None, "initial size literal not found in heap.c (pattern `heap->size ? heap->size * 2 : 64`)"
+    d = sc.sub("small_heap")
+    open(os.path.join(d, "heap.c"), "w").write(small)
+    exe = os.path.join(d, "heap_driver_small")
+    cmd = ["clang", "-g", "-O1", "-fsanitize=address,undefined", "-fno-sanitize-recover=undefined",
+           "-fno-omit-frame-pointer", "-I", src, os.path.join(ROOT, "harness/heap_driver.c"),
+           os.path.join(d, "heap.c"), "-o", exe]
+    p = subprocess.run(cmd, stdout=subprocess.PIPE, stderr=subprocess.STDOUT, text=True)
+    if p.returncode != 0:
+        return None, p.stdout[-2000:]
+    return exe, ""
+
+
+def asan_behaviours(chk, sc, cfg, behs, const):
+    """Every TLC behaviour of HeapSim (InitSize 3, counters next to 2^32-1) through the small-allocation ASan build."""
+    exe, err = build_asan_small(sc)
+    if exe is None:
+        chk.notes["asan_small"] = "skipped: " + err
+        return
+    off = 2 ** 32 - 1 - const["max_counter"]
+    d = sc.sub("small_ops_" + cfg)
+
+    def one(i):
+        lines = ["S %d %d" % (h, off) for h in range(1, const["nhandlers"] + 1)]
+        for obs in behs[i]:
+            op = obs["op"]
+            if op["name"] == "push":
+                if abs(op["t"][0]) >= 1000000:
+                    lines.append("P %d %d 0" % (op["h"], op["t"][0]))
+                else:
+                    lines.append("P %d %d %d" % (op["h"], op["t"][0], op["t"][1] * 2))
+            elif op["name"] == "trash":
+                lines.append("T %d" % op["h"])
+            elif op["name"] == "get":
+                lines.append("G")
+            elif op["name"] == "repickle":
+                lines.append("K")
+        path = os.path.join(d, "b%d.txt" % i)
+        open(path, "w").write("\n".join(lines) + "\n")
+        a = subprocess.run([exe, path], stdout=subprocess.DEVNULL, stderr=subprocess.PIPE, text=True, timeout=120,
+                           env=dict(os.environ, ASAN_OPTIONS="detect_leaks=1:abort_on_error=0"))
+        bad = a.returncode != 0 or "ERROR: AddressSanitizer" in a.stderr or "runtime error" in a.stderr
+        return i, bad, a.stderr[-3000:], path
+    with ThreadPoolExecutor(16) as ex:
+        res = list(ex.map(one, range(len(behs))))
+    chk.evaluations += len(res)
+    chk.notes.setdefault("asan_small_behaviours", {})[cfg] = len(res)
+    for i, bad, err, path in res:
+        if bad:
+            chk.violation("asan", "heap.c (initial allocation 3 as in Heap.tla) under ASan/UBSan reports an invalid access on a "
+                          "TLC behaviour of %s" % cfg, dict(config=cfg, ops=open(path).read().split("\n"), stderr=err))
+
+
 def run(chk, sc):
     plan = PLAN[chk.tier]
     exe, err = build_asan(sc)
@@ -86,6 +147,12 @@ def run(chk, sc):
         total, viol = r["verdicts"][-1]
         chk.traces += 1
         chk.evaluations += total
+        drift = [v for v in viol if v[1].startswith("transcription:")]
+        viol = [v for v in viol if not v[1].startswith("transcription:")]
+        if drift:
+            chk.notes.setdefault("transcription_drift", []).append(
+                "history seed=%d line %d: %s (%d such clauses; Heap.tla's design-level results do not transfer to this "
+                "code until the spec is updated)" % (seed, sorted(drift)[0][0], sorted(drift)[0][1], len(drift)))
         if viol:
             first = sorted(viol)[0]
             _keep(chk, r)
